@@ -200,6 +200,36 @@ Definition abs_queue (s : state) : list tag :=
   buf s ++ flat_map (fun f => match s_val (gets s f) with Some v => [v] | None => [] end) (rev (sendq s)).
 
 (* ------------------------------------------------------------------------------------ *)
+(* C11 (mpmc): handle lifecycle on the encoded trace.  Without an explicit close the channel
+   is closed iff one side has no handle left; once the last receiver handle is gone nothing
+   stays buffered.  (Shared streams own a receiver handle: code 32 on a shared channel drops it.) *)
+Record hmon := mkHmon { h_senders : nat; h_receivers : nat; h_explicit : bool; h_good : bool }.
+
+Definition hmon_step (shared : bool) (m : hmon) (e : list N * obs) : hmon :=
+  let '(l, ob) := e in
+  let closed' := negb (N.eqb (nth 0 (o_probe ob) 0%N) 0) in
+  let buffered := nth 1 (o_probe ob) 0%N in
+  let m1 :=
+    match l with
+    | [9%N] => mkHmon (h_senders m) (h_receivers m) true (h_good m)
+    | [10%N] => mkHmon (S (h_senders m)) (h_receivers m) (h_explicit m) (h_good m)
+    | [14%N] => mkHmon (pred (h_senders m)) (h_receivers m) (h_explicit m) (h_good m)
+    | [13%N] => mkHmon (h_senders m) (S (h_receivers m)) (h_explicit m) (h_good m)
+    | [16%N] => mkHmon (h_senders m) (pred (h_receivers m)) (h_explicit m) (h_good m)
+    | [32%N; _] => if shared then mkHmon (h_senders m) (pred (h_receivers m)) (h_explicit m) (h_good m) else m
+    | _ => m
+    end in
+  match l with
+  | [20%N] => m1
+  | _ => mkHmon (h_senders m1) (h_receivers m1) (h_explicit m1)
+                (h_good m1 &&
+                 (h_explicit m1 || Bool.eqb closed' (Nat.eqb (h_senders m1) 0 || Nat.eqb (h_receivers m1) 0)) &&
+                 (negb (Nat.eqb (h_receivers m1) 0) || N.eqb buffered 0))
+  end.
+
+Definition handles_ok (shared : bool) (tr : list (list N * obs)) : bool :=
+  h_good (fold_left (hmon_step shared) tr (mkHmon 1 1 false true)).
+
 (* whole handle drops (codes 14 / 16) reach the monitors as one handle operation carrying the
    merged observation of their sections *)
 Definition decode_mon (l : list N) : option op :=
@@ -220,6 +250,7 @@ Definition monitor (which : N) (cfg : list N) (tr : list (list N * obs)) : bool 
       | 8%N => conservation_ok (dec_trace tr)
       | 9%N => fifo_ok ks c (dec_trace tr)
       | 10%N => recv_wakeup_ok kr ks c (dec_trace tr)
+      | 11%N => match cfg with _ :: _ :: _ :: sh :: _ => if N.eqb sh 0 then true else handles_ok true tr | _ => true end
       | _ => true
       end
   | _ => true
